@@ -1,0 +1,68 @@
+//go:build verif
+
+// Package verifhook provides observation points for the runtime-verification
+// harness. With the "verif" build tag the calls are forwarded to a handler the
+// harness installs with SetHandler / SetRLHandler.
+package verifhook
+
+import (
+	"sync/atomic"
+	"time"
+)
+
+// Handler receives pipeline events. item is non-nil only for AtItem.
+type Handler func(point, id, url string, n int, item any)
+
+// RLHandler receives rate-limiter snapshots (called under the bucket's mutex; must not block).
+type RLHandler func(kind string, bucket any, now time.Time, tokens, refillRate, idealRate, capacity float64, penaltyUntil time.Time, failureCount, status int)
+
+var (
+	handler   atomic.Pointer[Handler]
+	rlHandler atomic.Pointer[RLHandler]
+)
+
+// SetHandler installs (or with nil removes) the event handler.
+func SetHandler(h Handler) {
+	if h == nil {
+		handler.Store(nil)
+		return
+	}
+	handler.Store(&h)
+}
+
+// SetRLHandler installs (or with nil removes) the rate-limiter snapshot handler.
+func SetRLHandler(h RLHandler) {
+	if h == nil {
+		rlHandler.Store(nil)
+		return
+	}
+	rlHandler.Store(&h)
+}
+
+// At marks a named point in the pipeline for the seed/item id.
+func At(point, id string) {
+	if h := handler.Load(); h != nil {
+		(*h)(point, id, "", 0, nil)
+	}
+}
+
+// AtKV marks a named point with an id, a URL (or other text) and a number.
+func AtKV(point, id, url string, n int) {
+	if h := handler.Load(); h != nil {
+		(*h)(point, id, url, n, nil)
+	}
+}
+
+// AtItem marks a named point and hands the object the caller currently owns to the handler.
+func AtItem(point string, item any) {
+	if h := handler.Load(); h != nil {
+		(*h)(point, "", "", 0, item)
+	}
+}
+
+// RL reports a rate-limiter bucket snapshot; it is called with the bucket's mutex held.
+func RL(kind string, bucket any, now time.Time, tokens, refillRate, idealRate, capacity float64, penaltyUntil time.Time, failureCount, status int) {
+	if h := rlHandler.Load(); h != nil {
+		(*h)(kind, bucket, now, tokens, refillRate, idealRate, capacity, penaltyUntil, failureCount, status)
+	}
+}
